@@ -60,6 +60,20 @@ struct Top_ : state_machine_def<Top_> {
 };
 typedef BE<Top_> Top;
 
+// exception_caught submits an event while the failing step already queued another one (C04: "from exception_caught"): both must wait
+// until the step is over and keep their submission order
+#include <stdexcept>
+struct note { int n; note(int n_=0):n(n_){} }; struct boom {};
+struct X_ : state_machine_def<X_> {
+  struct S : state<> {};
+  struct Thrower { template<class E,class F,class A,class B> void operator()(E const&,F& f,A&,B&){ g_log += "action{ "; f.process_event(note(1)); g_log += "} "; throw std::runtime_error("x"); } };
+  struct RecN { template<class F,class A,class B> void operator()(note const& e,F&,A&,B&){ g_log += "note" + std::to_string(e.n) + " "; } };
+  typedef S initial_state;
+  struct transition_table : mpl::vector< Row<S, boom, none, Thrower, none>, Row<S, note, none, RecN, none> > {};
+  template<class F,class Ev> void no_transition(Ev const&,F&,int){ g_log += "NT "; }
+  template<class F,class Ev> void exception_caught(Ev const&,F& f,std::exception&){ g_log += "caught{ "; f.process_event(note(2)); g_log += "} "; }
+};
+typedef BE<X_> XM;
 int main(int argc, char** argv) {
   if (argc > 1) g_only = argv[1];
   const char* pos[] = {"guard","exit","action","entry"};
@@ -91,5 +105,7 @@ int main(int argc, char** argv) {
     report("sub-entry.completion-first", g_log == "I.entry{ } c l ", "C10,C04", "log=[" + g_log + "]"); }
   { Sub m; g_log.clear(); m.start();
     report("root-start.completion-first", g_log.find("c l") != std::string::npos && g_log.find("k") == std::string::npos, "C10", "log=[" + g_log + "]"); }
+  { XM m; m.start(); g_log.clear(); m.process_event(boom());
+    report("submit.exception_caught", g_log == "action{ } caught{ } note1 note2 ", "C04,C12", "log=[" + g_log + "]"); }
   return finish();
 }
